@@ -334,3 +334,101 @@ theorem decode_ok_iff (w s : Str) : decode w = .ok s ↔ PctSpx s w :=
   ⟨decodes_pctSpx, pctSpx_decodes s w⟩
 
 end Purl
+
+namespace Purl
+open Generated
+
+/-! ### namespace and subpath pieces, exactly -/
+
+/-- pieces (the text between raw '/') of a namespace and the segments they denote -/
+inductive NsSpx : List Str → List Str → Prop where
+  | nil : NsSpx [] []
+  | empty (segs ps : List Str) : NsSpx segs ps → NsSpx segs ([] :: ps)
+  | seg (s w : Str) (segs ps : List Str) : w ≠ [] → '/' ∉ s → PctSpx s w → NsSpx segs ps → NsSpx (s :: segs) (w :: ps)
+
+theorem nsDecoded_iff (ps segs : List Str) : nsDecoded ps = .ok segs ↔ NsSpx segs ps := by
+  constructor
+  · intro h
+    induction ps generalizing segs with
+    | nil => simp [nsDecoded] at h; subst h; exact .nil
+    | cons w rest ih =>
+      unfold nsDecoded at h
+      by_cases hw : w.isEmpty = true
+      · have : w = [] := by cases w <;> simp_all
+        subst this
+        simp only [List.isEmpty_nil, if_true] at h
+        exact .empty segs rest (ih segs h)
+      · simp only [hw, Bool.false_eq_true, if_false] at h
+        cases hd : decode w with
+        | error e => rw [hd] at h; simp at h
+        | ok d =>
+          rw [hd] at h
+          simp only at h
+          by_cases hc : d.contains '/' = true
+          · rw [if_pos hc] at h; cases h
+          · rw [if_neg hc] at h
+            cases hr : nsDecoded rest with
+            | error e => rw [hr] at h; simp at h
+            | ok ds =>
+              rw [hr] at h
+              simp only [Except.ok.injEq] at h
+              subst h
+              refine .seg d w ds rest ?_ ?_ (decodes_pctSpx hd) (ih ds hr)
+              · intro e; subst e; simp at hw
+              · intro hm; apply hc; simpa using hm
+  · intro h
+    induction h with
+    | nil => rfl
+    | empty segs ps _ ih => simp [nsDecoded, ih]
+    | seg s w segs ps hne hsl hp _ ih =>
+      have hw : w.isEmpty = false := by cases w with
+        | nil => exact absurd rfl hne
+        | cons _ _ => rfl
+      have hc : s.contains '/' = false := by
+        cases h : s.contains '/' with
+        | false => rfl
+        | true => exact absurd (by simpa using h) hsl
+      simp only [nsDecoded, hw, Bool.false_eq_true, if_false, pctSpx_decodes s w hp, hc, ih]
+
+/-- pieces of a subpath and the segments they denote: raw "", "." and ".." pieces are skipped, every other
+piece must spell a segment without '/', other than "." and ".." -/
+inductive SubSpx : List Str → List Str → Prop where
+  | nil : SubSpx [] []
+  | skip (d : Str) (segs ps : List Str) : isDotSeg d = true → SubSpx segs ps → SubSpx segs (d :: ps)
+  | seg (s w : Str) (segs ps : List Str) : isDotSeg w = false → badSubSeg s = false → PctSpx s w →
+      SubSpx segs ps → SubSpx (s :: segs) (w :: ps)
+
+theorem subDecoded_iff (ps segs : List Str) : subDecoded ps = .ok segs ↔ SubSpx segs ps := by
+  constructor
+  · intro h
+    induction ps generalizing segs with
+    | nil => simp [subDecoded] at h; subst h; exact .nil
+    | cons w rest ih =>
+      unfold subDecoded at h
+      by_cases hw : isDotSeg w = true
+      · simp only [hw, if_true] at h
+        exact .skip w segs rest hw (ih segs h)
+      · simp only [hw, Bool.false_eq_true, if_false] at h
+        cases hd : decode w with
+        | error e => rw [hd] at h; simp at h
+        | ok d =>
+          rw [hd] at h
+          simp only at h
+          by_cases hc : badSubSeg d = true
+          · rw [if_pos hc] at h; cases h
+          · rw [if_neg hc] at h
+            cases hr : subDecoded rest with
+            | error e => rw [hr] at h; simp at h
+            | ok ds =>
+              rw [hr] at h
+              simp only [Except.ok.injEq] at h
+              subst h
+              exact .seg d w ds rest (by simpa using hw) (by simpa using hc) (decodes_pctSpx hd) (ih ds hr)
+  · intro h
+    induction h with
+    | nil => rfl
+    | skip d segs ps hd _ ih => simp [subDecoded, hd, ih]
+    | seg s w segs ps hw hb hp _ ih =>
+      simp only [subDecoded, hw, Bool.false_eq_true, if_false, pctSpx_decodes s w hp, hb, ih]
+
+end Purl
